@@ -191,6 +191,7 @@ type G struct {
 	Ops     map[string]int // operator pair coverage: "parent>child"
 	labels  int
 	inClass int
+	inHeredoc   int
 	dollarFirst int // >0: the variable expression being built must start with '$' + name
 }
 
@@ -549,6 +550,10 @@ func (g *G) shellExec(depth int) *Node {
 // followed by ';' and a line terminator, which the statement builder guarantees
 // (Node.Flags carries heredocTail so that the caller knows).
 func (g *G) heredoc(depth int) *Node {
+	// the lexer keeps a single heredoc label: a heredoc nested in the interpolation of another one
+	// makes the outer one unterminated (known finding C03-nested-heredoc), so none is generated here
+	g.inHeredoc++
+	defer func() { g.inHeredoc-- }()
 	g.labels++
 	label := g.R.Pick("EOT", "A", "_L", "HTML") + strconv.Itoa(g.labels)
 	nl := g.R.Pick("\n", "\n", "\r\n")
@@ -600,6 +605,18 @@ func (g *G) heredoc(depth int) *Node {
 				ns = append(ns, p)
 				ps = append(ps, p)
 			}
+		}
+	}
+	if g.R.Chance(1, 4) {
+		// a body line that starts with the label followed by a label character is not the terminator
+		pre := indent + label + g.R.Pick("2", "x", "_", "9 ", "É") + g.R.Pick("", " y", ";") + nl
+		if ns[0].Kind == "ScalarEncapsedStringPart" {
+			ns[0].Val = pre + ns[0].Val
+			ns[0].Parts = []interface{}{tn(ns[0].Val)}
+		} else {
+			p := &Node{Kind: "ScalarEncapsedStringPart", Val: pre, HasVal: true, Parts: []interface{}{tn(pre)}}
+			ns = append([]*Node{p}, ns...)
+			ps = append([]interface{}{p}, ps...)
 		}
 	}
 	if indent != "" {
